@@ -902,14 +902,19 @@ pub fn run_scenario_sec(sc: &Sc7, sec: Option<(String, std::path::PathBuf)>, dom
 
   // ---- B: everybody matched
   let ini = initial.clone();
-  match w.wait_until(T_MATCH_S, &move |w| w.all_matched(&ini)) {
+  // Between secured participants the way to a match is long (SPDP, three best-effort handshake messages re-sent once
+  // a second, participant keys, protected SEDP, endpoint keys, each step repaired by its own timer): with datagram
+  // loss injected during discovery the thorough tier has about one scenario in eight between 10 and 40 s, and a few
+  // in a thousand beyond. "Bounded" is 120 s there.
+  let t_match_first = if w.sec.is_some() && sc.loss_disc_ppm > 0 { 3.0 * T_MATCH_S } else { T_MATCH_S };
+  match w.wait_until(t_match_first, &move |w| w.all_matched(&ini)) {
     Some(s) => out.max_match_s = out.max_match_s.max(s),
     None => {
       let missing = w.missing_matches(&initial);
       let cross = missing.iter().any(|m| m["writer_part"] != m["reader_part"]);
       violate!(
         format!("C07/match:compatible-pair-not-matched-within-bound:{}", if cross { "across-participants" } else { "same-participant" }),
-        json!({"bound_s": T_MATCH_S, "missing": missing, "loss_during_discovery_ppm": sc.loss_disc_ppm})
+        json!({"bound_s": t_match_first, "missing": missing, "loss_during_discovery_ppm": sc.loss_disc_ppm})
       );
     }
   }
